@@ -208,6 +208,42 @@ pub fn run(args: &[String]) -> i32 {
     }
     rep.cov("presence_matrix", json!({"cells": cells.len(), "cells_conforming": matrix_ok, "settings": SETTINGS.iter().map(|s| s.0).collect::<Vec<_>>(), "languages": langs.iter().map(|l| l.name()).collect::<Vec<_>>(), "distinct_outcomes": outcomes.len()}));
 
+    // 1b. an option given on the command line with the empty string is still "given": the file's value must not be used
+    let mut empty_runs = 0u64;
+    {
+        let lang_of = [Lang::Swift, Lang::Kotlin, Lang::Kotlin, Lang::Scala, Lang::Go];
+        for (i, (flag, _, _, _, file_value)) in SETTINGS.iter().enumerate() {
+            for via in ["-c", "cwd"] {
+                let sc = Scratch::new("c20e");
+                sc.write("ws/app/src/lib.rs", SRC.as_bytes());
+                // every setting present in the file, so that the other languages' requirements are met
+                let toml = toml_for(31, "");
+                let mut extra = vec![s(flag), String::new()];
+                let cwd = if via == "-c" {
+                    sc.write("cfg/typeshare.toml", toml.as_bytes());
+                    extra.extend([s("-c"), sc.path("cfg/typeshare.toml").to_string_lossy().into_owned()]);
+                    ""
+                } else {
+                    sc.write("proj/typeshare.toml", toml.as_bytes());
+                    "proj"
+                };
+                let o = run_lang(&sc, lang_of[i], &extra, cwd);
+                empty_runs += 1;
+                // either the run refuses the empty value with a diagnostic, or it generates with the empty value;
+                // what it must not do is fall back to the file
+                let used_file_value = o.class == "ok" && o.text.contains(file_value);
+                if used_file_value || !matches!(o.class, "ok" | "error") {
+                    rep.vios.add(Violation {
+                        sig: format!("C20|{}|empty-cli-value-lost-to-file|setting={}|via={via}", lang_of[i].name(), flag.trim_start_matches("--")),
+                        detail: json!({"argv": o.argv, "config_file": toml, "exit": o.class, "stderr": o.stderr, "output": o.text.chars().take(600).collect::<String>(), "observation": format!("`{flag} \"\"` was given, yet the output carries the file's value `{file_value}`")}),
+                    });
+                }
+            }
+        }
+    }
+    rep.cov("empty_cli_values", json!({"runs": empty_runs, "settings": SETTINGS.iter().map(|s| s.0).collect::<Vec<_>>(), "config_found_via": ["-c", "working directory"]}));
+    rep.cov_add("evaluations", empty_runs);
+    rep.cov_add("traces_validated_against_impl", empty_runs);
     // 2. file-only tables are applied unchanged
     let mut table_runs = 0u64;
     {
@@ -353,7 +389,7 @@ pub fn run(args: &[String]) -> i32 {
             }
         }
     }
-    let total = cells.len() as u64 + table_runs + discovery_runs + g_runs;
+    let total = cells.len() as u64 + table_runs + discovery_runs + g_runs + empty_runs;
     rep.cov("evaluations", json!(total));
     rep.cov("states", json!(cells.len()));
     rep.cov("transitions", json!(total));
